@@ -65,6 +65,11 @@ type vRelay struct {
 	// first re-dial (symbolic choice): that stream creation is refused
 	refuseOpt bool
 	refuse    int
+	// junkAt: the k-th frame (1-based; 0 = none) that the relay delivers at a
+	// rendezvous other than the initial one is truncated to its first byte
+	// (a single relay hiccup right after the post-pairing switch)
+	junkAt   int
+	junkSeen int
 }
 
 func newRelay(sid [64]byte, budget int) *vRelay {
@@ -92,6 +97,15 @@ func (r *vRelay) refused() bool {
 		return true
 	}
 	return false
+}
+
+// truncates counts the deliveries at the later rendezvous points and reports
+// whether this one is the frame to truncate.
+func (r *vRelay) truncates() bool {
+	r.mu.Lock()
+	defer r.mu.Unlock()
+	r.junkSeen++
+	return r.junkAt != 0 && r.junkSeen == r.junkAt
 }
 
 func (r *vRelay) epoch() chan struct{} {
@@ -241,6 +255,9 @@ func (s *vRecvStream) Recv() (*hashmailrpc.CipherBox, error) {
 	}
 	select {
 	case b := <-s.r.chanOf(s.box):
+		if s.box >= 2 && s.r.truncates() && len(b) > 1 {
+			b = b[:1]
+		}
 		return &hashmailrpc.CipherBox{Msg: b}, nil
 	case <-s.epoch:
 		s.dead = true
